@@ -313,8 +313,8 @@ func intKindGuards(m *vmModel, b *ssa.BasicBlock, wantTrue bool) int {
 		if callee == nil || callee.Pkg != m.sp || !isIntKindFunc(callee) {
 			continue
 		}
-		onTrue := id.Succs[0] == d || id.Succs[0].Dominates(d)
-		onFalse := id.Succs[1] == d || id.Succs[1].Dominates(d)
+		onTrue := edgeOnly(id, 0, d)
+		onFalse := edgeOnly(id, 1, d)
 		if wantTrue && onTrue && !onFalse {
 			n++
 		}
@@ -560,7 +560,7 @@ func dominatedByCmp(b *ssa.BasicBlock, v ssa.Value, op token.Token, k int64) boo
 		if !ok || c.Int64() != k {
 			continue
 		}
-		if id.Succs[0] == d || id.Succs[0].Dominates(d) {
+		if edgeOnly(id, 0, d) {
 			return true
 		}
 	}
